@@ -11,6 +11,8 @@ import (
 	"path/filepath"
 	"strings"
 
+	minify "github.com/tdewolff/minify/v2"
+	"github.com/tdewolff/minify/v2/js"
 	"verif/internal/calls"
 	"verif/internal/core"
 	"verif/internal/corpus"
@@ -112,6 +114,49 @@ func historyIndependence(c *core.Check) {
 			c.Fail(core.Failure{Family: "history-independence", Input: a.Text + " ⟶ " + b.Text, Config: a.Type + " then " + b.Type, Kind: "state-survives-call", What: fmt.Sprintf("after minifying A, B gives %q; alone it gives %q", got, alone[i%uint64(len(docs))])})
 		}
 	})
+	// the same call repeated: 24 repetitions of documents with many names per declaration, rule, element or object (whatever
+	// order a hash table, a sort of equal keys or a pooled buffer could influence) give the same bytes every time
+	many := []corpus.Doc{
+		{Type: "application/javascript", Text: "var first=1;for(var [key,value,third,fourth,fifth] of Object.entries(o)){use(key,value,third,fourth,fifth)}var last=2;"},
+		{Type: "application/javascript", Text: "var first=1;for(var {alpha,beta,gamma,delta,epsilon} of list){use(alpha,beta,gamma,delta,epsilon)}var last=2;"},
+		{Type: "application/javascript", Text: "function f(){var first=1;for(var {alpha,beta,gamma,delta,epsilon} in list){with(o)use(alpha,beta,gamma,delta,epsilon)}var last=2;return eval('x')}"},
+		{Type: "application/javascript", Text: "function g(p1,p2,p3){var {a1,a2,a3,a4,a5}=p1,[b1,b2,b3,b4,b5]=p2;if(p3){var c1=a1+b1,c2=a2+b2}for(var d1 in p3)for(var [e1,e2,e3] of p3[d1])h(a3,a4,a5,b3,b4,b5,c1,c2,e1,e2,e3)}"},
+		{Type: "text/css", Text: "a{margin:1px;margin-top:2px;padding:0 0 0 0;border:1px solid red;border-color:blue;background:url(a.png) no-repeat 0 0;font:12px/1 a,b,c}b,c,d,e,f{color:red}c,b,a{color:red}@media x{a{b:c}}@media x{d{e:f}}"},
+		{Type: "text/html", Text: "<p id=i class=\"e d c b a\" style=\"z:1;y:2;x:3\" data-e=5 data-d=4 data-c=3 data-b=2 data-a=1 hidden title=t lang=en dir=ltr>x<input type=text value=v name=n disabled checked readonly required>"},
+		{Type: "image/svg+xml", Text: "<svg xmlns=\"http://www.w3.org/2000/svg\" xmlns:a=\"u:a\" xmlns:b=\"u:b\" a:x=\"1\" b:y=\"2\" width=\"1\" height=\"2\" viewBox=\"0 0 1 2\"><g fill=\"red\" stroke=\"blue\" style=\"c:1;b:2;a:3\"/></svg>"},
+		{Type: "application/json", Text: "{\"e\":1,\"d\":2,\"c\":3,\"b\":4,\"a\":5,\"a\":6}"},
+		{Type: "text/xml", Text: "<r e=\"1\" d=\"2\" c=\"3\" b=\"4\" a=\"5\" xmlns:q=\"u\" q:z=\"6\"><x/><x/></r>"},
+	}
+	c.Family("repeat-determinism").Bound = fmt.Sprintf("%d documents with many names per construct x 2 registries (fresh per call, one shared) x name keeping off/on x 24 repetitions", len(many))
+	for _, d := range many {
+		for _, keep := range []bool{false, true} {
+			shared := corpus.Registry()
+			if keep {
+				shared.Add("application/javascript", &js.Minifier{KeepVarNames: true})
+			}
+			var first [2]string
+			for rep := 0; rep < 24; rep++ {
+				fresh := corpus.Registry()
+				if keep {
+					fresh.Add("application/javascript", &js.Minifier{KeepVarNames: true})
+				}
+				for ri, m := range []*minify.M{fresh, shared} {
+					out, err := m.Bytes(d.Type, []byte(d.Text))
+					got := fmt.Sprintf("%s|%v", out, err)
+					c.Count(1)
+					c.AddFamily("repeat-determinism", 1, 1)
+					if rep == 0 {
+						first[ri] = got
+					} else if got != first[ri] {
+						c.Fail(core.Failure{Family: "repeat-determinism", Input: d.Text, Config: fmt.Sprintf("%s KeepVarNames=%v registry=%d", d.Type, keep, ri), Kind: "repeat-differs", What: fmt.Sprintf("repetition %d gives %q, the first call gave %q", rep, got, first[ri])})
+					}
+				}
+			}
+			if first[0] != first[1] {
+				c.Fail(core.Failure{Family: "repeat-determinism", Input: d.Text, Config: d.Type, Kind: "repeat-differs", What: fmt.Sprintf("a fresh registry gives %q, a registry that has served other calls gives %q", first[0], first[1])})
+			}
+		}
+	}
 	// repeated calls through the shared-option registry: k-th repetition equals the first
 	sh := calls.New()
 	first := make([]string, len(calls.Alphabet))
